@@ -83,6 +83,8 @@ func runC02(c *Ctx, r *Report, tier string) {
 			vals = append(vals, trunc(t, 50))
 			switch {
 			case t == "*(P5)", t == "call:(*parseState).pop(P1)", strings.HasPrefix(t, "call:unquoteIfPossible(cell:string)#0"):
+			case t == `phi{"" | call:(*parseState).pop(P1)}`, t == `phi{call:(*parseState).pop(P1) | ""}`:
+				// a helper returning ("", err) on its failure exits: the empty member never reaches Set
 			default:
 				okAll = false
 			}
@@ -98,7 +100,7 @@ func runC02(c *Ctx, r *Report, tier string) {
 	for _, in := range c.instrs(po, c.isCallTo("unquoteIfPossible")) {
 		// guards: beyond those of the merge point, only the tag test
 		var merge *ssa.BasicBlock
-		for _, b := range po.Blocks {
+		for _, b := range c.blocks(po) {
 			if iff, ok := b.Instrs[len(b.Instrs)-1].(*ssa.If); ok && strings.Contains(c.cond(iff.Cond).Term, `call:(*multiTag).Get(&Option.tag(P3), "unquote")`) {
 				merge = b
 			}
@@ -132,7 +134,7 @@ func runC02(c *Ctx, r *Report, tier string) {
 	for _, in := range c.instrs(po, c.isCallTo("(*Option).isValidValue")) {
 		c.reqRule(r, "ADMISSIBLE", po, in, "isValidValue only for a popped token", litHas(false, "nonnil(P5)"), "argument == nil", nil)
 	}
-	for _, b := range po.Blocks {
+	for _, b := range c.blocks(po) {
 		if iff, ok := b.Instrs[len(b.Instrs)-1].(*ssa.If); ok && strings.HasPrefix(c.cond(iff.Cond).Term, `eq("--", `) {
 			c.reqRule(r, "ADMISSIBLE", po, iff, "`--` test only for a popped token", litHas(false, "nonnil(P5)"), "argument == nil", nil)
 		}
@@ -270,7 +272,7 @@ func runC02(c *Ctx, r *Report, tier string) {
 			continue
 		}
 		okL := false
-		for _, l := range loopsOf(fn) {
+		for _, l := range c.loopsDeep(fn) {
 			for _, in := range l.Header.Instrs {
 				if p, ok := in.(*ssa.Phi); ok {
 					t := c.term(p)
